@@ -258,4 +258,70 @@ theorem ofCol_toCol' (t : PType) (p : Prim) (c : ColVal) (h : toCol t p = some c
       simp [ofCol, hc.1, beN, be16ToNat, unLE_leN 16 _ (bv128 _)]
     · cases h
 
+/-! ### DECIMAL typed_value leaves of any byte length (foreign writers) -/
+
+theorem unLE_append (a b : Bytes) : unLE (a ++ b) = unLE a + 256 ^ a.length * unLE b := by
+  induction a with
+  | nil => simp [unLE]
+  | cons x xs ih =>
+    simp only [List.cons_append, unLE, ih, List.length_cons, Nat.pow_succ, Nat.mul_add]
+    rw [show 256 * (256 ^ xs.length * unLE b) = 256 ^ xs.length * 256 * unLE b by
+      rw [Nat.mul_comm (256 ^ xs.length) 256, Nat.mul_assoc]]
+    omega
+
+theorem unLE_replicate_zero (k : Nat) : unLE (List.replicate k (0 : UInt8)) = 0 := by
+  induction k with
+  | zero => simp [unLE]
+  | succ k ih => simp [List.replicate_succ, unLE, ih]
+
+theorem unLE_replicate_ff (k : Nat) : unLE (List.replicate k (0xFF : UInt8)) = 256 ^ k - 1 := by
+  induction k with
+  | zero => simp [unLE]
+  | succ k ih =>
+    have hp : 1 ≤ 256 ^ k := Nat.pow_pos (by omega)
+    simp only [List.replicate_succ, unLE, ih, Nat.pow_succ]
+    have : (0xFF : UInt8).toNat = 255 := by decide
+    omega
+
+theorem leN_succ_last (k m : Nat) :
+    leN (k + 1) m = leN k m ++ [UInt8.ofNat (m / 256 ^ k % 256)] := by
+  induction k generalizing m with
+  | zero => simp [leN]
+  | succ k ih =>
+    rw [leN, ih (m / 256)]
+    simp only [leN, List.cons_append]
+    rw [Nat.div_div_eq_div_mul, Nat.pow_succ, Nat.mul_comm 256]
+
+theorem be16ToNat_short (n m : Nat) (hn1 : 1 ≤ n) (hn : n ≤ 16) (hm : m < 256 ^ n) :
+    be16ToNat (beN n m) =
+      if m < 128 * 256 ^ (n - 1) then m else m + (256 ^ 16 - 256 ^ n) := by
+  obtain ⟨k, rfl⟩ : ∃ k, n = k + 1 := ⟨n - 1, by omega⟩
+  have hb : beN (k + 1) m = UInt8.ofNat (m / 256 ^ k % 256) :: (leN k m).reverse := by
+    simp [beN, leN_succ_last]
+  have hrev : (beN (k + 1) m).reverse = leN (k + 1) m := by simp [beN]
+  have hlen : (beN (k + 1) m).length = k + 1 := by simp [beN]
+  have hq : m / 256 ^ k < 256 := by
+    rw [Nat.div_lt_iff_lt_mul (Nat.pow_pos (by omega))]
+    rw [Nat.pow_succ] at hm; omega
+  unfold be16ToNat
+  rw [hrev, hlen, unLE_append, unLE_leN _ _ hm, leN_length]
+  rw [hb]
+  simp only [Nat.add_sub_cancel]
+  have hmod : m / 256 ^ k % 256 = m / 256 ^ k := Nat.mod_eq_of_lt hq
+  by_cases hneg : m < 128 * 256 ^ k
+  · have hlt : m / 256 ^ k < 128 := by
+      rw [Nat.div_lt_iff_lt_mul (Nat.pow_pos (by omega))]; exact hneg
+    have : ¬ (UInt8.ofNat (m / 256 ^ k % 256) ≥ 0x80) := by
+      rw [hmod]; simp [UInt8.le_iff_toNat_le]; omega
+    simp [this, hneg, unLE_replicate_zero]
+  · have hge : 128 ≤ m / 256 ^ k := by
+      rw [Nat.le_div_iff_mul_le (Nat.pow_pos (by omega))]; omega
+    have : UInt8.ofNat (m / 256 ^ k % 256) ≥ 0x80 := by
+      rw [hmod]; simp [UInt8.le_iff_toNat_le]; omega
+    simp only [this, if_true, hneg, if_false, unLE_replicate_ff]
+    have h1 : 256 ^ (k + 1) * 256 ^ (16 - (k + 1)) = 256 ^ 16 := by
+      rw [← Nat.pow_add]; congr 1; omega
+    have hp : 1 ≤ 256 ^ (16 - (k + 1)) := Nat.pow_pos (by omega)
+    rw [Nat.mul_sub, Nat.mul_one, h1]
+
 end PqModel.Variant
